@@ -214,6 +214,12 @@ pub fn ecdsa_flip_s(sig: &[u8]) -> Option<Vec<u8>> {
     Some(s2.to_der().as_bytes().to_vec())
 }
 
+/// secp256r1: the same scalars in the fixed-size encoding r || s (64 bytes) instead of DER
+pub fn ecdsa_raw(sig: &[u8]) -> Option<Vec<u8>> {
+    let s = p256::ecdsa::Signature::from_der(sig).ok()?;
+    Some(s.to_bytes().to_vec())
+}
+
 /// every single structured mutation of `w` (description, mutated message)
 pub fn mutations(w: &schema::Biscuit, other: &schema::Biscuit, earlier: Option<&schema::Biscuit>, rng: &mut StdRng) -> Vec<(String, schema::Biscuit)> {
     let mut out: Vec<(String, schema::Biscuit)> = vec![];
@@ -238,6 +244,11 @@ pub fn mutations(w: &schema::Biscuit, other: &schema::Biscuit, earlier: Option<&
                 let mut m = w.clone();
                 block_mut(&mut m, i).signature = s2;
                 out.push((format!("block{i}.signature ecdsa (r, n-s)"), m));
+                if let Some(s3) = ecdsa_raw(&block_mut(&mut w.clone(), i).signature) {
+                    let mut m = w.clone();
+                    block_mut(&mut m, i).signature = s3;
+                    out.push((format!("block{i}.signature re-encoded as raw r||s"), m));
+                }
             }
         }
         let mut m = w.clone();
@@ -346,6 +357,11 @@ pub fn mutations(w: &schema::Biscuit, other: &schema::Biscuit, earlier: Option<&
                     let mut m = w.clone();
                     m.proof.content = Some(schema::proof::Content::FinalSignature(s2));
                     out.push(("seal ecdsa (r, n-s)".into(), m));
+                }
+                if let Some(s3) = ecdsa_raw(s) {
+                    let mut m = w.clone();
+                    m.proof.content = Some(schema::proof::Content::FinalSignature(s3));
+                    out.push(("seal re-encoded as raw r||s".into(), m));
                 }
             }
             let mut m = w.clone();
